@@ -634,7 +634,10 @@ def template(depth=3):
         {"kind": "ram", "addr": "L", "clock": 4, "minDur": 4, "bw": 160.0, "minRet": 20, "fixRet": 8, "maxTg": 1},
         {"kind": "dmm", "clock": 4, "minDur": 4},
     ]}]
-    assignments = [{"x": 8, "y": 1.0}, {"x": 12, "y": 0.5}, {"x": 22, "y": 2.0}]
+    assignments = [{"x": 8, "y": 1.0, "v": [0.0, 1.0, 2.0, 1.0, 0.5]},
+                   {"x": 12, "y": 0.5, "v": [0.5, 0.25, 0.0, 2.0, 1.0]},
+                   {"x": 22, "y": 2.0, "v": [1.0, 1.0, 0.5, 0.0, 0.0]}]
+    from pulser.waveforms import InterpolatedWaveform
     pulses = [Pulse.ConstantPulse(16, 1.0, 0.0, 0.0),
               Pulse(RampWaveform(12, 0.0, 2.0), ConstantWaveform(12, -1.0), 0.5, post_phase_shift=0.5)]
     setpoints = [(1.0, 0.0, 0.0)]
@@ -677,6 +680,9 @@ def template(depth=3):
     par({"op": "add", "nm": 3, "proto": P}, "p",
         lambda V: Pulse.ConstantAmplitude(V["y"] * 2, RampWaveform(V["x"], 0.0, 1.0), 0.0, post_phase_shift=0.5),
         pulse_idx)
+    # array variable: strided slice and item of an array in an interpolated waveform (default times)
+    par({"op": "add", "nm": 2, "proto": P}, "p",
+        lambda V: Pulse.ConstantDetuning(InterpolatedWaveform(40, V["v"][::2]), -1.0 * V["v"][1], 0.0), pulse_idx)
     par({"op": "delay", "nm": 1, "rest": False}, "d", lambda V: V["x"], lambda v: {"d": int(v)})
     par({"op": "delay", "nm": 3, "rest": True}, "d", lambda V: V["x"] // 2 + 1, lambda v: {"d": int(v)})
     par({"op": "target", "nm": 3}, "tg", lambda V: (V["x"] // 4) % 3, lambda v: {"tg": 1 << int(v)})
@@ -685,7 +691,7 @@ def template(depth=3):
     par({"op": "eom_add", "nm": 1, "ph": 0, "pps": 0, "proto": P, "cpd": False}, "dur",
         lambda V: 2 * V["x"], lambda v: {"dur": int(v)})
     c = Config("template", devs, pulses, calls, [1, 2], depth, setpoints=setpoints, cf_max=40)
-    c.variables = [("x", int, None), ("y", float, None)]
+    c.variables = [("x", int, None), ("y", float, None), ("v", float, 5)]
     c.assignments = assignments
     c.par_real = par_real
     return c
@@ -720,6 +726,20 @@ def instances(name, tier):
         a = fine(4)
         a.name = "fine-d4"
         return [a, b]
+    if name == "rel":
+        out = []
+        for fam in ("core", "eom", "render", "template", "typestate"):
+            for c in instances(fam, tier):
+                if c.name.startswith(("render_eom", "render_ising_dmmfirst")):
+                    continue
+                if quick and fam in ("core", "typestate"):
+                    c.max_depth = 2
+                    c.name = c.name.rsplit("-d", 1)[0] + "-d2"
+                c.name = "rel_" + c.name
+                c.render = False
+                c.relations = True
+                out.append(c)
+        return out
     if name == "template":
         c = template(3 if quick else 4)
         c.name = f"template-d{c.max_depth}"
@@ -789,6 +809,12 @@ def instances(name, tier):
 
 def by_tag(tag):
     fam = tag.split("-")[0]
+    if tag.startswith("rel_"):
+        for tier in ("quick", "thorough"):
+            for c in instances("rel", tier):
+                if c.name == tag:
+                    return c
+        raise KeyError(tag)
     if tag.startswith("ham_"):
         c = by_tag(tag.replace("ham_", "render_"))
         c.name = tag
